@@ -101,7 +101,7 @@ def work(ident, prop, tier, tree):
             bounded = {"instances": 1 if ran else 0, "undecided": 0 if ran else 1, "detail": rp.get("detail", "")[:300],
                        "bound": f"native driver {bd['driver']} (seeded random search on the real code)",
                        "violations": [{"kwargs": bd, "detail": rp.get("detail", "")}] if rp.get("reproduced") else []}
-        elif res.error and res.error.startswith("unsupported") and k.generic_replay:
+        elif res.error and (res.error.startswith("unsupported") or res.error.startswith("crash")) and k.generic_replay:
             # the function (as it is now) is outside the verifier's reach: bounded stand-in, never counted as proof
             from pyvc import replaygen
             try:
